@@ -30,6 +30,13 @@ pub fn cells(tier: Tier) -> Vec<CellPlan> {
     add(cells::split_lossy("C02"), 2, 3, 3, 4, 2.0);
     add(cells::wrap("C02", 4), 1, 2, 3, 4, 2.0);
     add(cells::same_frame3("C02"), 1, 1, 1, 2, 1.0);
+    // entities carrying a marker that asks for history: late mutate messages are applied through
+    // the marker's write function, which must not disturb the newest value
+    let mut h = cells::mutations("C02");
+    h.name = "c02-mut-hist".into();
+    h.cfg.hist = true;
+    h.env = Env::full();
+    add(h, 2, 3, 3, 4, 2.0);
     let mut r = cells::reinsert("C02");
     r.env = Env::full();
     add(r, 2, 3, 3, 4, 2.0);
